@@ -174,6 +174,10 @@ func jlScratch(name string) string {
 
 func jlRandCols(r *rng, depth int) []jlCol {
 	names := []string{"a", "b", "zz", "aa", "é", "k k", "c", "d"}
+	if r.chance(1, 3) {
+		// names a definition loader could be tempted to interpret: path syntax, a case variant, YAML / JSON look-alikes
+		names = []string{"a", "a.b", "user.name", "x.", ".y", "A", "1", "k-k:z", "#h", "true", "b"}
+	}
 	for i := len(names) - 1; i > 0; i-- {
 		j := r.intn(i + 1)
 		names[i], names[j] = names[j], names[i]
